@@ -1915,7 +1915,8 @@ class Reader:
                     q["ok"] = False
                     q["err"].append("quota:inode_not_regular")
                 hdr = self.file_bytes(I, 8) if I["size"] >= 8 else b""
-                if len(hdr) < 8 or u32(hdr, 0)[0] not in (0xD9C101F7, 0xD9C101F8, 0xD9C101F9) or u32(hdr, 4)[0] != 1:
+                magic = {"usr": 0xD9C01F11, "grp": 0xD9C01927, "prj": 0xD9C03F14}[kind]
+                if len(hdr) < 8 or u32(hdr, 0)[0] != magic or u32(hdr, 4)[0] > 1:
                     q["ok"] = False
                     q["err"].append("quota:bad_header")
             Q.append(q)
@@ -2239,7 +2240,7 @@ class Reader:
             ents = []
             for ep, (name, t, ft, where, pos) in enumerate(D["ents"]):
                 dot = 1 if name == b"." else (2 if name == b".." else 0)
-                ents.append({"name": jname(name), "ino": clip(t), "ft": ft, "ix": ix_of.get(t, 0), "dot": dot})
+                ents.append([clip(t), ft, ix_of.get(t, 0), dot, jname(name)])
                 refs.append([clip(t), dp + 1, ep + 1])
             out_dirs.append({"dir": D["dir"], "ix": ix_of[D["dir"]], "kind": D["kind"], "levels": D["levels"],
                              "ok": not D["err"], "err": [x for x in D["err"] if not x.startswith("csum:")],
@@ -2271,12 +2272,12 @@ class Reader:
                 for d in frontier:
                     D = out_dirs[dpos[d]]
                     for en in D["ents"]:
-                        if en["dot"]:
+                        if en[3]:
                             continue
-                        c = dpos.get(en["ino"])
+                        c = dpos.get(en[0])
                         if c is not None and out_dirs[c]["depth"] < 0:
                             out_dirs[c]["depth"] = D["depth"] + 1
-                            nf.append(en["ino"])
+                            nf.append(en[0])
                 frontier = nf
         # ---- xattr blocks
         xbs = []
@@ -2351,9 +2352,8 @@ class Reader:
                 seen_dirs.add(ino)
                 D = out_dirs[dpos[ino]] if ino in dpos else None
                 if D is not None:
-                    for en in sorted((e_ for e_ in D["ents"] if not e_["dot"]), key=lambda e_: e_["name"],
-                                     reverse=True):
-                        stack.append((path.rstrip("/") + "/" + en["name"], en["ino"]))
+                    for en in sorted((e_ for e_ in D["ents"] if not e_[3]), key=lambda e_: e_[4], reverse=True):
+                        stack.append((path.rstrip("/") + "/" + en[4], en[0]))
             out.append(t)
         out.sort(key=lambda t: t["path"])
         return out
